@@ -6,9 +6,11 @@ package dsl
 // the executor; its output is over-approximated: every sequence of n tokens whose types range over all
 // token kinds of expressionLexer (a symbolic token type per position) followed by EOF.  The token stream
 // is the library's real PeekingLexer (interpreted), fed by the Lexer below.
-// Obligations: the parser terminates, does not panic, and returns exactly one of (expression, error).
+// Obligations: the parser terminates, does not panic, returns exactly one of (expression, error), and every
+// error is a positioned participle.Error (ParseExpression panics on any other error type).
 
 import (
+	"github.com/alecthomas/participle/v2"
 	"github.com/alecthomas/participle/v2/lexer"
 )
 
@@ -46,7 +48,8 @@ func VerifC10Parser(n int) {
 	for i := 0; i < n; i++ {
 		t := lexer.TokenType(verifInt("token-type"))
 		verifAssume(t >= lo && t <= hi)
-		toks = append(toks, lexer.Token{Type: t, Value: "1", Pos: lexer.Position{Filename: "expr", Line: 1, Column: i + 1}})
+		// token text: only integer tokens interpret it ("09" is matched by the lexer's Int rule but is not a valid literal)
+		toks = append(toks, lexer.Token{Type: t, Value: verifOneOf("token-text", "1", "09"), Pos: lexer.Position{Filename: "expr", Line: 1, Column: i + 1}})
 	}
 	plex, err := lexer.Upgrade(&verifTokLexer{toks: toks})
 	verifAssert("token-stream-built", err == nil)
@@ -65,6 +68,11 @@ func VerifC10Parser(n int) {
 	verifAssert("parser-does-not-panic", !panicked)
 	if !panicked {
 		verifAssert("expression-or-error", (expr != nil) != (perr != nil))
+		if perr != nil {
+			// ParseExpression turns any error that is not a positioned participle.Error into a panic
+			_, positioned := perr.(participle.Error)
+			verifAssert("error-is-positioned", positioned)
+		}
 	}
 	verifReach("c10-parser-end")
 }
